@@ -179,3 +179,11 @@ reg("C17", "other", ["contracts.overlap:OverlapBlock", "contracts.diffop:Kinetic
          "available here can reason about: it is covered by a BOUNDED stand-in on the float code (eigenvalue / Schwarz checks on seeded random bases, "
          "including nearly dependent ones).",
     extra_assumptions=["rounding behaviour: bounded stand-in only"])
+
+# BOUNDED stand-in shared by the properties whose public routines take arrays: the symbolic execution cannot see dtype /
+# memory layout (its arrays report float64), so representation independence is checked natively (never counted as proved)
+for _p, _h in (("C03", "PointCharge"), ("C05", "Evals"), ("C06", "Density"), ("C07", "Moment"), ("C09", "Assembly"), ("C10", "Transformation"),
+               ("C14", "Esp"), ("C15", "Stress"), ("C19", "InputRepresentation")):
+    CHECKS[_p].harnesses.append("contracts.representation:" + _h)
+    CHECKS[_p].assumptions.append("dtype / memory layout / writability of array arguments: bounded native check only (contracts.representation), "
+                                  "the symbolic arrays all report float64")
